@@ -4,7 +4,8 @@ from ..rules import calls_to, calls_where, order_ok, blocks_of, self_field_of_ca
 from ..facts import callee_path, is_place, op_local, trace, operand_place
 
 TEXT = ('Coverage rules over the containers that can hold an effect: Renderer::on_change_sample_rate updates dt, the shared '
-        'rate and the mixer; every effect-holding struct fans each of its rate/initialisation/per-callback methods out to '
+        'rate and the mixer; every field of a struct with on_change_sample_rate that a constructor initialises from the sample '
+        'rate is recomputed there from the new rate on every path; every effect-holding struct fans each of its rate/initialisation/per-callback methods out to '
         'every effect-holding field; every Effect impl whose init depends on the sample rate overrides '
         'on_change_sample_rate with the same dependent state; every track-creation site initialises effects with a load of '
         'RendererShared.sample_rate before the insert; tracks in flight in the new-resource ring during a rate change must '
@@ -58,6 +59,7 @@ def touched_with_closures(F, b):
 def run(ctx, R, tier):
     F = ctx.facts('default')
     renderer(F, R)
+    cached(F, R)
     cover(F, R)
     pair(F, R)
     init_sites(F, R)
@@ -94,6 +96,44 @@ def renderer(F, R):
                 d = describe(nb, s['rv']['ops'][i])
                 ok = d.startswith('Div(1.0, ') and '::load(' in d and 'sample_rate' in d
         R.check(ok, 'B.C16.renderer', 'new', 'Renderer::new derives dt from %s, not from the shared sample rate' % d, detail={'dt': d})
+
+
+def cached(F, R):
+    """No value derived from the sample rate is cached across a rate change: for every struct with an inherent
+    `on_change_sample_rate`, each field that some constructor initialises from the sample rate is reassigned (or its owner's
+    own on_change_sample_rate is called) on every path of that method, from the new rate."""
+    from ..paths import describe_rv
+    n = 0
+    for b in F.bodies:
+        if b.krate != 'kira' or not b.path.endswith('::on_change_sample_rate') or b.path.startswith('<') or '{closure' in b.path:
+            continue
+        adt = b.path.rsplit('::', 1)[0]
+        if F.adt(adt) is None:
+            continue
+        dep = {}
+        for o in F.bodies:
+            if o.krate != 'kira':
+                continue
+            for bb, si, st in o.stmts():
+                if st['k'] == 'assign' and st['rv']['k'] == 'agg' and st['rv'].get('adt') == adt:
+                    for fn, op in zip(st['rv']['fields'], st['rv']['ops']):
+                        d = describe(o, op, depth=10, at=bb)
+                        if 'sample_rate' in d:
+                            dep.setdefault(fn, (o.path, d))
+        rets = b.return_blocks()
+        for fn, (where, d) in sorted(dep.items()):
+            n += 1
+            stores = [bb for bb, si, st in b.stmts() if st['k'] == 'assign' and pretty_place(b, st['lhs']) == '(*self).' + fn
+                      and 'sample_rate' in describe_rv(b, st['rv'], depth=10, at=bb)]
+            deleg = [bb for bb, t in b.calls() if (callee_path(t) or '').endswith('::on_change_sample_rate')
+                     and (self_field_of_call(b, t, 0) or '').startswith('(*self).' + fn)]
+            sites = stores + deleg
+            ok = any(all(b.dominates(x, r) for r in rets) for x in sites)
+            R.check(ok, 'B.C16.cached', '%s.%s' % (adt, fn),
+                    '%s.%s is initialised from the sample rate (%s, in %s) but %s does not recompute it from the new rate on every '
+                    'path: after a device rate change the cached value belongs to the old rate' % (adt, fn, d[:100], where, b.path),
+                    detail={'struct': adt, 'field': fn, 'init': d[:140]}, where=b.file)
+    R.floor('B.C16.cached', n, 1)
 
 
 def pretty_rv(b, rv):
